@@ -128,6 +128,10 @@ func (t *Trie[K, V]) Get(key K) (v V, ok bool) {
 	if x == nil || err != nil {
 		return v, false
 	}
+	// A node on the path of a longer key is not a key by itself.
+	if !x.isValid {
+		return v, false
+	}
 
 	return x.val, true
 }
